@@ -85,7 +85,7 @@ class Sched:
                 out.append(t)
         return out
 
-    def settle(self, pick=None, limit=200000):
+    def settle(self, pick=None, limit=50000):
         """Run until every thread is blocked or done. pick(list)->index chooses who runs."""
         n = 0
         while True:
@@ -99,7 +99,7 @@ class Sched:
             self._run(t)
             n += 1
             if n > limit:
-                raise RuntimeError('scheduler livelock: %r' % (r,))
+                raise RuntimeError('scheduler livelock (no virtual time passes): %r' % (r,))
         self.threads = [t for t in self.threads if t.state != 'done']
 
     def next_deadline(self):
@@ -272,6 +272,8 @@ class VThread:
     def join(self, timeout=None):
         if self.vt is None:
             raise RuntimeError('cannot join thread before it is started')
+        if self.vt is self.s.me():
+            raise RuntimeError('cannot join current thread')
         self.s.block(lambda: self.vt.state == 'done', timeout, 'thread.join')
 
     def is_alive(self):
